@@ -116,7 +116,7 @@ retryLookup:
 	// Try each address in the cached entry. If we successfully connect
 	// to one of those addresses then return the conn and stop there.
 	for _, addr := range entry.addrs {
-		conn, err := c.dialer.DialContext(ctx, "tcp", addr.String()+":"+port)
+		conn, err := c.dialer.DialContext(ctx, "tcp", net.JoinHostPort(addr.String(), port))
 		if err != nil {
 			continue
 		}
